@@ -53,10 +53,17 @@ type Exec struct {
 	strIDs      map[string]string
 	strKeys     []strKeyRec
 	freshBase   []uint32
+	sentinels   map[string]uint32
+	cells       map[string]*cellMeta
 	ctr         *Contract
 	tolerant    bool
 	noInline    bool
 	allocBound  func(f *frame, n *node, in *ssa.MakeSlice, ln string)
+}
+
+type cellMeta struct {
+	v      Val
+	stores int
 }
 
 type InputVar struct {
